@@ -365,6 +365,10 @@ func main() {
 				{"NewControlWriterBuffer/oversize", func(d io.Writer, st ws.State, op ws.OpCode) *wsutil.ControlWriter {
 					return wsutil.NewControlWriterBuffer(d, st, op, make([]byte, 4096))
 				}},
+				{"NewControlWriterBuffer/spare-cap", func(d io.Writer, st ws.State, op ws.OpCode) *wsutil.ControlWriter {
+					// a caller buffer that is the front of a larger (pooled) array
+					return wsutil.NewControlWriterBuffer(d, st, op, make([]byte, 256, 4096)[:140])
+				}},
 				{"NewControlWriterBuffer/small", func(d io.Writer, st ws.State, op ws.OpCode) *wsutil.ControlWriter {
 					return wsutil.NewControlWriterBuffer(d, st, op, make([]byte, 70))
 				}},
